@@ -226,8 +226,13 @@ def _propagate_aliases(f: ast.AST) -> int:
                     if ch is None or x in params or x in nested_names or len(stores.get(x, ())) != 1:
                         continue
                     base = ch.split(".")[0]
-                    if base == x or base in stores or base in nested_names and False:
+                    if base == x:
                         continue
+                    if base in stores:
+                        # a local base is fine when it is bound exactly once, by an earlier statement of this same block (it cannot change between the alias and its uses)
+                        bs = stores[base]
+                        if not (len(bs) == 1 and any(any(m is bs[0] for m in ast.walk(prev)) for prev in b[:i] if isinstance(prev, (ast.Assign, ast.AnnAssign)))):
+                            continue
                     prefixes = {".".join(ch.split(".")[:k]) for k in range(2, len(ch.split(".")) + 1)}
                     if prefixes & attr_stores:
                         continue
